@@ -532,7 +532,26 @@ def eq(a, b):
     if isinstance(a, (tuple, list)):
         return len(a) == len(b) and all(eq(x, y) for x, y in zip(a, b))
     if isinstance(a, dict):
-        return len(a) == len(b) and all(k in b and eq(x, b[k]) for k, x in a.items())
+        if len(a) != len(b):
+            return False
+        rest = list(b.items())
+        for k, x in a.items():
+            # (keys are matched with eq as well: a NaN key is found neither by hash lookup nor by ==)
+            hit = next((i for i, (k2, y) in enumerate(rest) if eq(k, k2) and eq(x, y)), None)
+            if hit is None:
+                return False
+            del rest[hit]
+        return True
+    if isinstance(a, (set, frozenset)):
+        if len(a) != len(b):
+            return False
+        rest = list(b)
+        for x in a:
+            hit = next((i for i, y in enumerate(rest) if eq(x, y)), None)
+            if hit is None:
+                return False
+            del rest[hit]
+        return True
     try:
         r = a == b
         return bool(r) if not isinstance(r, np.ndarray) else bool(r.all())
